@@ -220,38 +220,74 @@ type jStats struct {
 
 // runJournal executes a journal case against the oracle.
 func runJournal(c *JCase) (st jStats, err error) {
-	var buf bytes.Buffer
-	w := journal.NewWriter(&buf)
 	orig := make([][]byte, len(c.Recs))
 	for i, r := range c.Recs {
 		orig[i] = recBytes(i, r.Len)
-		ww, werr := w.Next()
-		if werr != nil {
-			return st, fmt.Errorf("writer.Next: %v", werr)
-		}
-		if r.Split <= 0 {
-			if _, werr = ww.Write(orig[i]); werr != nil {
-				return st, fmt.Errorf("write: %v", werr)
-			}
-		} else {
-			for p := 0; p < len(orig[i]); p += r.Split {
-				e := p + r.Split
-				if e > len(orig[i]) {
-					e = len(orig[i])
-				}
-				if _, werr = ww.Write(orig[i][p:e]); werr != nil {
-					return st, fmt.Errorf("write: %v", werr)
-				}
-			}
-		}
-		if r.Flush {
-			if werr = w.Flush(); werr != nil {
-				return st, fmt.Errorf("flush: %v", werr)
-			}
-		}
 	}
-	if cerr := w.Close(); cerr != nil {
-		return st, fmt.Errorf("close: %v", cerr)
+	// writeAll writes the case's records through w (whose output goes to out) and closes it
+	writeAll := func(w *journal.Writer, out *bytes.Buffer) error {
+		for i, r := range c.Recs {
+			ww, werr := w.Next()
+			if werr != nil {
+				return fmt.Errorf("writer.Next: %v", werr)
+			}
+			if r.Split <= 0 {
+				if _, werr = ww.Write(orig[i]); werr != nil {
+					return fmt.Errorf("write: %v", werr)
+				}
+			} else {
+				for p := 0; p < len(orig[i]); p += r.Split {
+					e := p + r.Split
+					if e > len(orig[i]) {
+						e = len(orig[i])
+					}
+					if _, werr = ww.Write(orig[i][p:e]); werr != nil {
+						return fmt.Errorf("write: %v", werr)
+					}
+				}
+			}
+			if r.Flush {
+				if werr = w.Flush(); werr != nil {
+					return fmt.Errorf("flush: %v", werr)
+				}
+				if int64(out.Len()) != w.Size() {
+					return fmt.Errorf("after Flush of record %d the writer reports Size()=%d, %d bytes reached the output", i, w.Size(), out.Len())
+				}
+			}
+		}
+		if cerr := w.Close(); cerr != nil {
+			return fmt.Errorf("close: %v", cerr)
+		}
+		return nil
+	}
+	var buf bytes.Buffer
+	if werr := writeAll(journal.NewWriter(&buf), &buf); werr != nil {
+		return st, werr
+	}
+	// a writer that was used on another output first (left after 0-2 records, the last one not
+	// flushed) and then Reset onto a new output - the way the DB rotates its journal - must
+	// produce the same bytes as a fresh writer, and must have completed what it owed the old output
+	{
+		var pre, buf2 bytes.Buffer
+		w2 := journal.NewWriter(&pre)
+		npre := len(c.Recs) % 3
+		for k := 0; k < npre; k++ {
+			ww, _ := w2.Next()
+			ww.Write(recBytes(1000+k, 10+k*40000))
+		}
+		if rerr := w2.Reset(&buf2); rerr != nil {
+			return st, fmt.Errorf("writer.Reset: %v", rerr)
+		}
+		if werr := writeAll(w2, &buf2); werr != nil {
+			return st, fmt.Errorf("writer reused through Reset: %v", werr)
+		}
+		if !bytes.Equal(buf2.Bytes(), buf.Bytes()) {
+			return st, fmt.Errorf("a writer reused through Reset produced %d bytes that differ from the %d bytes of a fresh writer for the same records", buf2.Len(), buf.Len())
+		}
+		pext, perr := parseJournal(pre.Bytes())
+		if perr != nil || len(pext) != npre {
+			return st, fmt.Errorf("the output a writer was Reset away from holds %d well-formed records (%v), %d were written", len(pext), perr, npre)
+		}
 	}
 	stream := buf.Bytes()
 	st.blocks = (len(stream) + jBlock - 1) / jBlock
